@@ -135,6 +135,29 @@ type RunResult struct {
 	LogTo     int
 }
 
+// FailClass: what kind of failure a run ended with - its stage and the error text with names, numbers
+// and paths taken out. Part of "run failed" signatures, so that minimisation cannot slide from one
+// cause of failure to another (a dangling issuer is a different violation from an unsignable root).
+func (r *RunResult) FailClass() string {
+	e := r.Err
+	if r.Panic != "" {
+		e = "panic " + r.Panic
+	}
+	e = failQuoted.ReplaceAllString(e, "_")
+	e = failDigits.ReplaceAllString(e, "N")
+	e = failPathy.ReplaceAllString(e, "_")
+	if len(e) > 70 {
+		e = e[:70]
+	}
+	return r.Stage + "/" + strings.TrimSpace(e)
+}
+
+var (
+	failQuoted = regexp.MustCompile("'[^']*'|\"[^\"]*\"")
+	failDigits = regexp.MustCompile("[0-9]+")
+	failPathy  = regexp.MustCompile("[^ ]*[/.][^ ]*\\.(pem|yaml|yml|json)[^ ]*")
+)
+
 func (r *RunResult) OK() bool { return !r.Failed && r.Panic == "" && !r.Crashed }
 
 func (r *RunResult) PlannedAliases() []string {
